@@ -44,7 +44,7 @@ ASSUMPTIONS = [
     "all magnitudes < 1e15; no NaN/inf",
     "an operator is 'simplified' when its terms have pairwise distinct operator sets and every |coefficient| > 1e-6; "
     "only then the exact (operators, real, imag) comparison is demanded (dict and file routes)",
-    "printed text route: matrices compared relative to the largest entry (1e-8 x scale, no floor) so that a "
+    "printed text route: matrices compared at 1e-8 absolute above 1 and relative to the largest entry below 1 (1e-8 x min(1, scale)) so that a "
     "small coefficient must come back as itself",
     "'no frames' compares equal whether spelled None or []",
     "arrays whose shape has a zero-length axis followed by further axes are outside the workload "
@@ -136,7 +136,7 @@ def simplified(terms):
 def compare_ops(exp, got, mode):
     """None if ``got`` denotes what ``exp`` denotes, else a description.
     mode 'lib': 1e-8 x max(1, scale) and exact terms when exp is simplified;
-    mode 'text': 1e-8 x scale (no floor)."""
+    mode 'text': 1e-8 x min(1, scale)."""
     qubits = sorted({q for ops, _ in exp for q, _ in ops} | {q for ops, _ in got for q, _ in ops})
     if len(qubits) > _MAXQ:
         raise NotInDomain("too wide")
@@ -144,7 +144,10 @@ def compare_ops(exp, got, mode):
     B = _dense(got, qubits)
     scale = float(np.abs(A).max())
     diff = float(np.abs(A - B).max())
-    tol = 1e-8 * (max(1.0, scale) if mode == "lib" else scale)
+    # text: absolute 1e-8 as the statement has it ("the same matrix to the library's 1e-8 tolerance") for entries above 1
+    # - floats print with repr, which reads back exactly, so a coefficient of 1e14 comes back to the last bit - and
+    # relative to the largest entry below 1, so that a small coefficient must come back as itself
+    tol = 1e-8 * (max(1.0, scale) if mode == "lib" else min(1.0, scale))
     if not diff <= tol:
         return f"matrices differ by {diff!r} (tolerance {tol!r})"
     if mode == "lib" and simplified(exp) is True:
